@@ -114,7 +114,11 @@ def run(tier, seed):
   if not fails:
     flat = nnx.statelib.FlatState(list(probes), sort=False)
     pool = [e for e in exprs if e[0] != 'const'][:60]
-    for fs in itertools.chain(((a,) for a in pool), itertools.product(pool[:14], repeat=2), ((a, b, ('const', ...)) for a, b in itertools.product(pool[:6], repeat=2))):
+    for fs in itertools.chain(((a,) for a in pool), itertools.product(pool[:14], repeat=2), ((a, b, ('const', ...)) for a, b in itertools.product(pool[:6], repeat=2)),
+                              # several trailing catch-alls: the FIRST one takes what is left, the later ones stay empty
+                              ((a, ('const', ...), ('const', ...)) for a in pool[:8]), ((a, ('const', True), ('const', ...)) for a in pool[:8]),
+                              ((a, b, ('const', True), ('const', True), ('const', ...)) for a, b in itertools.product(pool[:4], repeat=2)),
+                              [(('const', ...), ('const', ...)), (('const', True), ('const', ...))]):
       cases += 1
       try:
         groups = nnx.statelib._split_state(flat, *[_build(nnx, f) for f in fs])
@@ -133,7 +137,7 @@ def run(tier, seed):
       if got != want:
         fails.append(dict(inputs=dict(filters=repr(fs)), observed=f'split gives {got}, first-match partition is {want}', violated='first-match-partition'))
         break
-  return dict(name=NAME, cases=cases, distinct=len(exprs), bound=f'{len(exprs)} filter expressions (nesting depth <= {1 if tier == "quick" else 2}) x 4 probes; splits by 1-3 filters',
+  return dict(name=NAME, cases=cases, distinct=len(exprs), bound=f'{len(exprs)} filter expressions (nesting depth <= {1 if tier == "quick" else 2}) x 4 probes; splits by 1-5 filters incl. several trailing catch-alls',
               failures=fails[:2], error=None)
 
 
